@@ -128,6 +128,8 @@ BASE_SHAPES = tuple(SHAPES)
 SHAPES["vee"] = [[], [], [1]]
 SHAPES["vee0"] = [[], [], [0]]
 SHAPES["vee3"] = [[], [], [], [2]]
+# two independent branches r1 -> x, r2 -> y
+SHAPES["twobranch"] = [[], [], [0], [1]]
 
 
 def op_profile(name, tps, small=0.5, over=3.0, huge=1e6, over2=6.0):
@@ -139,6 +141,8 @@ def op_profile(name, tps, small=0.5, over=3.0, huge=1e6, over2=6.0):
         return [dict(cpu=d(2), scaling="const", mem=small, read=0)]
     if name == "s3":
         return [dict(cpu=d(3), scaling="const", mem=small, read=0)]
+    if name == "s9":        # a long filler
+        return [dict(cpu=d(9), scaling="const", mem=small, read=0)]
     if name == "over":      # over any first allocation of the small pools, under the doubled one
         return [dict(cpu=d(2), scaling="const", mem=over, read=0)]
     if name == "over2":     # over the doubled first allocation, under the quadrupled one
@@ -183,7 +187,7 @@ def horizon_of(combo, tps, extra=6):
     for pr, ar, sh, pf in combo:
         for i in range(len(SHAPES[sh])):
             name = pf[i % len(pf)]
-            h += {"s1": 1, "s2": 2, "s3": 3, "over": 4, "over2": 6, "huge": 3, "grow": 4, "z": 1, "m3": 2}.get(name, 2)
+            h += {"s1": 1, "s2": 2, "s3": 3, "s9": 9, "over": 4, "over2": 6, "huge": 3, "grow": 4, "z": 1, "m3": 2}.get(name, 2)
     return min(h, 36)
 
 
@@ -307,6 +311,52 @@ def space(kind, tier, seed=0):
                             for farr in (1, 2):
                                 out.append((algo, cfg, ((pr, 0, shape, pf),) + tuple((lo if algo != "priority-pool" else pr, farr, "single", ("s3",)) for _ in range(nf)), 1, kw))
         return out
+    if kind == "twice:priority":
+        # the SAME pipeline is preempted twice: pool full (a four-operator batch pipeline + long fillers), a query arrives,
+        # the batch container is suspended at its boundary and resumed, the pool is full again, a second query arrives;
+        # write-outs of 1, 2 and 4 ticks (25 / 40 / 80 GB per container at 1 tick/s)
+        for cfg in ((1, 2, 400, True, False), (1, 3, 400, True, False), (1, 2, 800, True, False), (1, 2, 250, True, False)):
+            nf = cfg[1] - 1
+            for bprof in (("s1",), ("s2", "s1"), ("s1", "s2"), ("s2",)):
+                for fpr in ("B", "I"):
+                    for a1 in (1, 2):
+                        for gap in (2, 3, 4, 5, 6, 8):
+                            for qprof in (("s1",), ("s2",)):
+                                combo = (("B", 0, "chain4", bprof),) + tuple((fpr, 0, "single", ("s9",)) for _ in range(nf)) + \
+                                        (("Q", a1, "single", qprof), ("Q", a1 + gap, "single", qprof))
+                                out.append(("priority", cfg, combo, 1, dict(over=45.0)))
+        return out
+    if kind == "mixed:priority-pool":
+        # latency-sensitive retry chains on pool 0 while pool 1 is (nearly) full of long batch work, and the other way round
+        for cfg in ((2, 3, 25, True, False), (2, 5, 25, True, False), (2, 4, 40, True, False), (2, 10, 100, True, False)):
+            j = max(1, int(cfg[2] / 10))
+            kw = dict(over=j + 0.5, over2=2 * j + 0.5)
+            for pr in ("Q", "I"):
+                for shape, pf in (("single", ("over",)), ("single", ("over2",)), ("chain2", ("s1", "over")), ("chain2", ("s1", "over2")), ("chain3", ("s1", "over", "over2")), ("chain3", ("over", "s1", "over2"))):
+                    for nb in sorted({cfg[1] - 2, cfg[1] - 1, cfg[1]} - {0, -1}):
+                        for barr in (0, 1):
+                            for extra in ((), (("B", 0, "single", ("over",)),), (("I" if pr == "Q" else "Q", 2, "single", ("s1",)),)):
+                                combo = ((pr, 0, shape, pf),) + tuple(sorted(tuple(("B", barr, "single", ("s9",)) for _ in range(nb)) + extra, key=lambda c: c[1]))
+                                combo = tuple(sorted(combo, key=lambda c: c[1]))
+                                out.append(("priority-pool", cfg, combo, 1, kw))
+        return out
+    if kind.startswith("branch:"):
+        # single-operator containers on several pools: one branch of a pipeline fails while the other branch is still
+        # running (or completes in the same tick), other pipelines arrive before / with / after the failure
+        algo = kind[7:]
+        import itertools as _it
+        for cfg in ((2, 2, 4, False, False), (3, 2, 4, False, False), (2, 1, 8, False, False)):
+            for r1, r2 in _it.product(("s1", "s2", "s3"), ("s1", "s2")):
+                for x in ("s1", "s2"):
+                    for y in ("huge",):
+                        for order in ((r1, r2, x, y), (r2, r1, y, x)):
+                            base = ("B", 0, "twobranch", order)
+                            out.append((algo, cfg, (base,), 1, dict(over=5.0)))
+                            for oarr in (0, 1, 2, 3):
+                                for oprof in (("s1",), ("s3",)):
+                                    out.append((algo, cfg, (base, ("B", oarr, "single", oprof)), 1, dict(over=5.0)))
+                                    out.append((algo, cfg, tuple(sorted((("B", oarr, "single", oprof), base), key=lambda c: c[1])), 1, dict(over=5.0)))
+        return out
     if kind == "wide:overbook":
         # a wide pipeline is abandoned while one of its containers is still running; other pipelines wait for CPUs
         import itertools as _it
@@ -411,6 +461,42 @@ def space(kind, tier, seed=0):
     return out
 
 
+def run_checked(sc, trace=None):
+    """run(), plus the differential oracle for priority-pool scenarios with mixed load"""
+    lat = [i for i, ps in enumerate(sc["pipelines"]) if ps["prio"] != "B"]
+    if sc["scheduler"] == "priority-pool" and lat and len(lat) < len(sc["pipelines"]) and not w_exception_expected(sc):
+        # isolation as non-interference: the decisions taken for pool 0 (query / interactive work) must be the same
+        # with and without the batch pipelines of the scenario
+        tr1, tr2 = (trace if trace is not None else []), []
+        w = run(sc, tr1)
+        sc2 = dict(sc, pipelines=[sc["pipelines"][i] for i in lat])
+        w2 = run(sc2, tr2)
+        ren = {f"p{k + 1}.": f"p{i + 1}." for k, i in enumerate(lat)}
+
+        def pool0(tr, rename):
+            out = []
+            for t in tr:
+                for names, cpu, ram, pool in t["assignments"]:
+                    if pool == 0:
+                        if rename:
+                            names = [ren[n[:n.index(".") + 1]] + n[n.index(".") + 1:] for n in names]
+                        out.append((t["tick"], tuple(names), cpu, ram))
+            return out
+        a, b = pool0(tr1, False), pool0(tr2, True)
+        if w.ended and not w2.ended and w.exception is not None:
+            w.flag({"C16"}, "pool0-decisions-depend-on-batch-load", f"with the batch pipelines present the run ends in tick {w.tick} with {type(w.exception[2]).__name__}: {w.exception[2]}; without them it runs to the end")
+        if a != b and not w.ended and not w2.ended:
+            k = next((i for i, (x, y) in enumerate(zip(a, b)) if x != y), min(len(a), len(b)))
+            w.flag({"C16"}, "pool0-decisions-depend-on-batch-load", f"pool-0 assignments (tick, operators, cpu, ram) with the batch pipelines present: {a[k:k + 2]}; without them: {b[k:k + 2]}")
+    else:
+        w = run(sc, trace)
+    return w
+
+
+def w_exception_expected(sc):
+    return not sc["multi"]   # (recorded finding: priority-pool raises in single-operator mode)
+
+
 def work(chunk):
     tot = f1.new_acc()
 
@@ -419,7 +505,7 @@ def work(chunk):
     for item in chunk:
         algo, cfg, combo, tps, kw = item
         sc = build(algo, cfg, combo, tps, **kw)
-        w = run(sc)
+        w = run_checked(sc)
         s = f1.summarize(sc, _Ch, w)
         s["outcomes"] = {(sc["name"], o) for o in s["outcomes"]}
         s["mm"] = [(t, k, site, d, dict(item=item)) for (t, k, site, d, _) in s["mm"]]
